@@ -146,7 +146,7 @@ def cases(draw, tier):
         "type": draw(st.one_of(st.none(), st.sampled_from(gen.TYPES),
                                ANYTEXT1)),
         "table_id": draw(st.one_of(st.none(), ANYTEXT1)),
-        "form": draw(st.sampled_from(gen.FORMS)),
+        "form": draw(st.sampled_from(gen.FORMS + gen.FORMS_F32[1:2])),
         "history": draw(ops.histories("any", poke=True)),
     }
     if draw(st.sampled_from([False] * 29 + [True])):
